@@ -16,7 +16,7 @@ func (e *execState) shadowBlock(bo *blockObs, txs [][]byte) {
 	for _, sh := range e.shadows {
 		sh.ResetRec()
 		for i := range bo.Blk.Pre {
-			_ = e.applyOpImpl(sh, &bo.Blk.Pre[i])
+			_ = e.applyOpImpl(sh, i, &bo.Blk.Pre[i])
 		}
 		// shadows carry the same injected tx-level faults so that they stay comparable
 		*sh.Rec.inj = *e.node.Rec.inj
